@@ -244,6 +244,54 @@ def update (clash : List String) (value : V) (key : Option String) (onlyUnset : 
       else if !onlyUnset || !(contains clash k root) then setItem clash k v root
       else .ok root
 
+/-! ### `items` and `update` on key segments
+
+`items()` builds `key + "." + subkey` strings and `update` re-parses them with `_parse_key`.  Stored names
+never contain "." (assignment of a dotted name goes through `__setitem__`), so joining and re-splitting is
+the identity on segments; `itemsSegs`/`updateSegs` are the same functions with the segments kept apart
+(the driver uses them, the correspondence with the real `update` checks the equivalence). -/
+
+mutual
+/-- the items contributed by the value stored at key path `pre` -/
+def itemsSegsV (pre : List String) (branches : Bool) : V → List (List String × V)
+  | .ns sub => (if branches then [(pre, V.ns sub)] else []) ++ itemsSegsKV pre branches sub
+  | .none => [(pre, .none)]
+  | .atom a => [(pre, .atom a)]
+  | .lst xs => [(pre, .lst xs)]
+  | .tup xs => [(pre, .tup xs)]
+  | .dct d => [(pre, .dct d)]
+def itemsSegsKV (pre : List String) (branches : Bool) : KV → List (List String × V)
+  | [] => []
+  | (k, v) :: r => itemsSegsV (pre ++ [unmark k]) branches v ++ itemsSegsKV pre branches r
+end
+
+def itemsSegs (branches : Bool) (root : KV) : List (List String × V) := itemsSegsKV [] branches root
+
+/-- one assignment of `update`: `if not only_unset or key not in self: self[key] = val` -/
+def updateOne (clash : List String) (onlyUnset : Bool) (segs : List String) (v : V) (root : KV) : KV :=
+  match splitLast (segs.map (mark clash)) with
+  | .none => root
+  | some (p, l) => if !onlyUnset || !(containsSegs p l root) then setSegs p l v root else root
+
+/-- `update(value, key, only_unset)` for a Namespace `value`, key prefix already split -/
+def updateSegs (clash : List String) (value : KV) (pre : List String) (onlyUnset : Bool) (root : KV) : KV :=
+  (itemsSegs false value).foldl (fun acc kv => updateOne clash onlyUnset (pre ++ kv.1) kv.2 acc) root
+
+/-- `update` with the string layer: the key prefix is parsed when the first item is assigned -/
+def update2 (clash : List String) (value : V) (key : Option String) (onlyUnset : Bool) (root : KV) : Except Err KV :=
+  match value with
+  | .ns vkvs =>
+    if (itemsSegs false vkvs).isEmpty then .ok root
+    else
+      match key with
+      | .none => .ok (updateSegs clash vkvs [] onlyUnset root)
+      | some k =>
+        if k = "" then .ok (updateSegs clash vkvs [] onlyUnset root)
+        else match parseKey clash k with
+          | .error e => .error e
+          | .ok segs => .ok (updateSegs clash vkvs (segs.map (·.name)) onlyUnset root)
+  | v => update clash v key onlyUnset root
+
 /-! ### conversions -/
 
 def allNs : List V → Bool
